@@ -29,6 +29,17 @@ func (s *Byte4KeyMapper) MapBytes(data []byte) [4]byte {
 type Byte20KeyMapper struct {
 }
 
+// MaxKeyLength is the longest key the mapper can map
+func (s *Byte20KeyMapper) MaxKeyLength() int { return 20 }
+
+// MaxKeyLength is the longest key the mapper can map
+func (s *Byte4KeyMapper) MaxKeyLength() int { return 4 }
+
+// boundedKeyMapper is implemented by mappers that can only map keys up to a certain length
+type boundedKeyMapper interface {
+	MaxKeyLength() int
+}
+
 func (s *Byte20KeyMapper) MapBytes(data []byte) [20]byte {
 	if len(data) > 20 {
 		panic(fmt.Sprintf("data length is too large, found %d but expected 20", len(data)))
@@ -59,6 +70,11 @@ func (s *MapKeyIndex[T]) Contains(key []byte) (bool, error) {
 	return true, nil
 }
 func (s *MapKeyIndex[T]) Get(key []byte) (IndexVal, error) {
+	// a key the mapper cannot map cannot have been loaded either: it is absent, not a reason to panic
+	if m, ok := s.mapper.(boundedKeyMapper); ok && len(key) > m.MaxKeyLength() {
+		return IndexVal{}, skiplist.NotFound
+	}
+
 	i, found := s.index[s.mapper.MapBytes(key)]
 	if found && bytes.Equal(s.SliceKeyIndex.index[i].key, key) {
 		return s.SliceKeyIndex.index[i].IndexVal, nil
